@@ -457,18 +457,33 @@ def run_tape_rules(res, ast, rules=("BOUNDS-GUARD", "READ-NOALLOC", "TAPE-PAIR")
                  "frees iff size != 0 with the same layout; the three fields have no other writer", floor=5, what="obligations")
         fn = fns["make_accessible"]
         w = where(RUNTIME, fn, "make_accessible")
-        t = T(ast, RUNTIME, fn["body"], 6000)
+        # copy and free of the old block happen only under `self.size != 0` (ordering of copy / free / field stores and the
+        # shared `added_below` are decided on MIR: TAPE-PAIR/MIR)
+        import pm
+        par_ = parents(fn)
+        olds = [m_ for m_ in walk_t(fn["body"], "MethodCall") if m_["method"] in ("copy_to_nonoverlapping", "copy_to", "copy_from_nonoverlapping", "copy_from")] + \
+               [c_ for c_ in walk_t(fn["body"], "Call") if (path_name(strip_paren(c_["func"])) or "").split("::")[-1] in ("dealloc", "realloc")]
 
-        def pos(frag):
-            return t.find(frag)
-        p_copy = pos("self.buffer.copy_to_nonoverlapping(new_buffer.wrapping_add(added_below),self.size);")
-        p_lay = pos("letold_layout=Layout::array::<C>(self.size).unwrap();")
-        p_free = pos("dealloc(self.bufferas*mutu8,old_layout);")
-        p_b = pos("self.buffer=new_buffer;")
-        p_s = pos("self.size=new_size;")
-        p_o = pos("self.offset=self.offset.wrapping_add(added_below);")
-        # ordering of copy / free / field stores and the shared `added_below` are decided on MIR (TAPE-PAIR/MIR)
-        guard = "ifself.size!=0{" in t and (p_copy < 0 or t.find("ifself.size!=0{") < p_copy)
+        def under_nonempty(n_):
+            cur = n_
+            while id(cur) in par_:
+                pn, k = par_[id(cur)]
+                if pn["t"] == "If":
+                    c_ = pm.canon(pn)
+                    # canon turns `if a != b {X} else {Y}` into `if a == b {Y} else {X}`
+                    cond = strip_paren(c_["cond"])
+                    in_then = any(x is n_ for x in walk(c_["then"]))
+                    if pm.match_expr(cond, "self.size == 0") is not None and not in_then:
+                        return True
+                    if pm.match_expr(cond, "self.size != 0") is not None and in_then:
+                        return True
+                    if pm.match_expr(cond, "self.size > 0") is not None and in_then:
+                        return True
+                    if pm.match_expr(cond, "self.buffer.is_null()") is not None and not in_then:
+                        return True
+                cur = pn
+            return False
+        guard = len(olds) >= 2 and all(under_nonempty(o_) for o_ in olds)
         res.check(guard, "TAPE-PAIR", f"{RUNTIME}|make_accessible|empty-guard", w, "copy and free of the old block must be skipped when there is no old block (size == 0)")
         import pm
         okd = pm.match_stmts(fns["drop"]["body"]["stmts"],
